@@ -265,3 +265,117 @@ pub fn case(ctx: &mut CaseCtx) -> CaseOut {
     let _ = completer_for;
     out
 }
+
+// ---------------------------------------------------------------------------------------------
+// part (b): a handler that unsubscribes a channel from inside its own callback (the dispatch that calls it is in
+// flight by definition)
+
+pub fn def_b() -> CheckDef {
+    CheckDef {
+        id: "C18b",
+        title: "Channels: unsubscribing from inside a message handler",
+        case: case_b,
+        rule: "case = a generated run observed by the client's match-all channel and by two further match-all channels `closer` and `other`; the handler of `closer` unsubscribes, on its k-th delivery (k seeded 1..6), either its own channel or `other`, from inside the callback - while the dispatch that calls it is in flight. The engine's lock operations are intercepted (a lock that can never be granted is reported instead of blocking the process). Oracle: the call returns (the engine does not deadlock on its handler maps), the run goes on to its end, and the unsubscribed channel receives nothing that was dispatched after the call returned. non-trivial = the unsubscribing delivery happened and at least one message was dispatched after it; distinct = distinct (scenario hash, schedule hash)",
+        level: "exploration",
+        assumptions: &["lock interception through hook H3: a lock request that no thread can ever satisfy is reported as a deadlock instead of blocking", "monotone simulated clock"],
+        probes: &["probe.unsubscribed_own_channel", "probe.unsubscribed_other_channel", "probe.dispatch_after_unsubscribe"],
+        quick_cases: 1500,
+        no_shrink: &[],
+    }
+}
+
+pub fn case_b(ctx: &mut CaseCtx) -> CaseOut {
+    let sc = ctx.scenario(|rng| {
+        let opts = LifeOpts { catches: false, scripted_actions: &["complete"], p_scripted: 0, adversary: None, dup: false, generators: rng.below(3) == 0, hooks: false, outputs: false, drop_outputs: false };
+        let mut sc = gen_lifecycle(rng, &opts);
+        sc.client.mode = rng.pick(&["sequential", "inline"]).to_string();
+        sc.engine.keep_processes = true;
+        sc.knobs = random_knobs(rng);
+        // k and the target travel in the scenario
+        sc.max_ops = 1 + rng.below(6) as u32;
+        sc.ticks = rng.below(2) as u32;
+        sc.capture = false;
+        sc
+    });
+    let k = sc.max_ops.max(1) as usize;
+    let own = sc.ticks == 0;
+    let mut sc_run = sc.clone();
+    sc_run.max_ops = 400;
+    sc_run.ticks = 0;
+    // (channel, seq) of every delivery to the two extra channels; seq at which the unsubscribe returned
+    let deliveries: std::sync::Arc<std::sync::Mutex<Vec<(String, u64)>>> = Default::default();
+    let unsub_at: std::sync::Arc<std::sync::Mutex<Option<(u64, u64, bool)>>> = Default::default();
+    let (d2, u2) = (deliveries.clone(), unsub_at.clone());
+    let deadlock: std::sync::Arc<std::sync::Mutex<Option<String>>> = Default::default();
+    let deadlock2 = deadlock.clone();
+    let rec = ctx.run_with(&sc_run, move |w| {
+        if let Err(e) = w.deploy_all() {
+            w.rec.lock().unwrap().rec.panics.push(format!("deploy: {e}"));
+            return;
+        }
+        // locks are intercepted: a request that can never be granted is reported
+        vsim::vthread::begin(0);
+        let engine = w.engine().clone();
+        let mk_opts = |id: &str| acts::ChannelOptions { id: id.to_string(), ack: false, r#type: "*".into(), state: "*".into(), tag: "*".into(), key: "*".into(), uses: "*".into() };
+        let other = engine.channel_with_options(&mk_opts("other"));
+        {
+            let d = d2.clone();
+            other.on_message(move |_e| {
+                d.lock().unwrap().push(("other".into(), vsim::bump_seq()));
+            });
+        }
+        let closer = engine.channel_with_options(&mk_opts("closer"));
+        {
+            let d = d2.clone();
+            let u = u2.clone();
+            let engine2 = engine.clone();
+            let count = std::sync::Arc::new(std::sync::atomic::AtomicUsize::new(0));
+            closer.on_message(move |_e| {
+                let seq = vsim::bump_seq();
+                d.lock().unwrap().push(("closer".into(), seq));
+                let n = count.fetch_add(1, std::sync::atomic::Ordering::SeqCst) + 1;
+                if n == k {
+                    let target = if own { "closer" } else { "other" };
+                    vsim::log(&format!("UNSUB {} from inside the handler of closer", target));
+                    let r = engine2.executor().msg().unsub(target);
+                    let done = vsim::bump_seq();
+                    *u.lock().unwrap() = Some((seq, done, r.is_ok()));
+                }
+            });
+        }
+        w.drive();
+        let st = vsim::vthread::end();
+        *deadlock2.lock().unwrap() = st.deadlock;
+    });
+    let mut out = CaseOut { scenario: Some(sc.clone()), ..Default::default() };
+    let target = if own { "closer" } else { "other" };
+    ctx.count(if own { "probe.unsubscribed_own_channel" } else { "probe.unsubscribed_other_channel" }, 1);
+    let lock_panic = rec.panics.iter().find(|p| p.contains("engine lock deadlock")).cloned();
+    if let Some(p) = lock_panic.or(deadlock.lock().unwrap().clone()) {
+        out.violations.push(Violation::new("C18", "unsubscribe_inside_handler_deadlocks", json!({"target": if own { "own_channel" } else { "other_channel" }}), format!("the handler of channel `closer` unsubscribed `{}` from inside its callback: the engine waits for a lock on its handler maps that the dispatch calling the handler still holds - {}", target, p)));
+        return out;
+    }
+    if discard_if_broken(&rec, &mut out) {
+        return out;
+    }
+    let Some((_at, done, _ok)) = *unsub_at.lock().unwrap() else {
+        out.sample = basic_sample(&sc, &rec, json!({"unsubscribe": "not reached", "k": k}));
+        return out;
+    };
+    // dispatched after the call returned = generated after it: the client's channel saw it with a later sequence
+    let later_dispatches = rec.msgs.iter().filter(|m| m.via == "message" && m.seq > done).count();
+    if later_dispatches > 0 {
+        ctx.count("probe.dispatch_after_unsubscribe", 1);
+    }
+    let late: Vec<u64> = deliveries.lock().unwrap().iter().filter(|(c, s)| c == target && *s > done).map(|(_, s)| *s).collect();
+    // a delivery that belongs to the dispatch in flight (the one whose handler made the call) is not counted: only
+    // messages generated after the call returned
+    let gen_after: Vec<u64> = rec.msgs.iter().filter(|m| m.via == "message" && m.seq > done && m.gen.map(|g| rec.msgs.iter().filter(|x| x.seq <= done).filter_map(|x| x.gen).max().map(|mx| g > mx).unwrap_or(true)).unwrap_or(false)).map(|m| m.seq).collect();
+    if !late.is_empty() && !gen_after.is_empty() && late.iter().any(|s| gen_after.iter().any(|g| s >= g)) {
+        out.violations.push(Violation::new("C18", "delivered_after_unsubscribe_inside_handler", json!({"target": if own { "own_channel" } else { "other_channel" }}), format!("channel `{}` was unsubscribed from inside a handler (the call returned at seq {}) and still received {} deliveries afterwards, at seqs {:?}", target, done, late.len(), late.iter().take(4).collect::<Vec<_>>())));
+    }
+    out.nontrivial = later_dispatches > 0;
+    out.outcome_hash = outcome_hash(&rec);
+    out.sample = basic_sample(&sc, &rec, json!({"k": k, "target": target, "unsubscribe_returned_at": done, "dispatches_after": later_dispatches}));
+    out
+}
